@@ -307,6 +307,15 @@ def verify_hyperparameters(num_input_dims=None,
                        "Dimension: %d, input_min[%d]: %f, input_max[%d]: %f" %
                        (dim, dim, input_min[dim], dim, input_max[dim]))
 
+  if ((monotonic_dominances is not None or range_dominances is not None) and
+      monotonicities is None):
+    raise ValueError("Dominance constraints require 'monotonicities'.")
+  for bounds, name in ((input_min, "input_min"), (input_max, "input_max")):
+    expected = (len(monotonicities) if monotonicities is not None else
+                num_input_dims)
+    if bounds is not None and expected is not None and len(bounds) != expected:
+      raise ValueError("Number of elements in '%s' must be equal to the "
+                       "number of input dimensions: %s" % (name, bounds))
   if monotonic_dominances is not None:
     assert monotonicities is not None
     num_input_dims = len(monotonicities)
